@@ -62,6 +62,9 @@ func (v *Verifier) sweepFunc(name string, n int, seed int64, maxCases int) sweep
 				keys = append(keys, "string("+p.name+")")
 			}
 		}
+		if strings.Contains(h.src, "rand.Reader = rd") {
+			keys = append(keys, "stream")
+		}
 		sort.Strings(keys)
 		vecs := v.genVectors(nil, keys, n, seed+int64(ci))
 		outs, _, err := v.runHarness(h, vecs)
